@@ -1,4 +1,5 @@
-"""component plugin: the argument handler (C01, C02, C03, C04, C08; C07's source half)"""
+"""component plugin: the argument handler (C01, C02, C03, C04, C08; C07's source half; the handler part of C06: which
+destination a free value is routed to)"""
 import glob
 import os
 import random
@@ -20,13 +21,16 @@ FRAGMENT = ("modelled fragment: destinations flag/int/string/LevelCounter/vector
             "Model/Regex.lean on a restricted ECMAScript subset: literals, '.', classes, \\d \\w \\s, * + ?, |, groups, "
             "^ $), cardinalities none/max/exact/range, constraints requires/excludes, handler constraints "
             "all-of/any-of/one-of and the value constraints differ (int/string) / disjoint (two vector<int>), "
+            "value formatters uppercase / lowercase on string and int arguments (checks see the text as typed, the "
+            "string destination holds the formatted text), "
             "abbreviations on/off, argument file and environment variable sources, evaluation through Groups, "
             "sub-groups as a handler tree of depth 2 (sub-group arguments with mandatory flag / cardinality / "
             "requires-excludes constraints, the sub handler's own abbreviation flag, lookup over both containers, "
             "also through Groups); not modelled: nested sub-groups of depth > 2, usage/summary output of sub-groups "
-            "(C18 covers usage), bracket handlers, inversion, value mode 'command', callables, formats, "
-            "pair/range/other destinations, floating point, patterns outside the subset (back-references, look-ahead, "
-            "counted repetition, POSIX classes)")
+            "(C18 covers usage), bracket handlers, inversion, value mode 'command', callables, formatters other than "
+            "uppercase / lowercase (anycase, format functions, positional formatters: the latter are in the containers "
+            "component), pair/range/other destinations, floating point, patterns outside the subset (back-references, "
+            "look-ahead, counted repetition, POSIX classes)")
 TRUST = [
     "hand-written models CelmaVerif/Model/ProgArgs/{Iter,Handler,Groups,SubGroups}.lean, Model/Keys.lean, Model/KeysSub.lean, Model/ArgString.lean, "
     "tied to handler.cpp / arg_list_iterator.hpp / typed_arg*.{hpp,cpp} / constraint_*.cpp / cardinality_*.cpp / "
@@ -57,6 +61,13 @@ PROPERTIES = {
                 "heap discipline of std:: and Boost objects used by the handler is not modelled: that part rests on the "
                 "ASan/UBSan verdict of the correspondence runs"],
             "assumptions": ["argc >= 1 (a program name is always present)"]},
+    # C06 is the property of the container destinations (component `containers`); the part of it that lives in the
+    # HANDLER - which destination a free value is routed to (`Handler::mpLastArg`: every identified key, also a
+    # sub-group argument's, ends the value list of the multi-value argument used before) - is served here
+    "C06": {"lean_module": "CelmaVerif.Props.C06s", "obligation_modules": [],
+            "kind": "functional", "trusted": TRUST,
+            "assumptions": ["claimed for the modelled fragment only (of the container destinations the handler model "
+                            "has vector<int>; the fold itself is the containers component's part of C06)"]},
     "C07": {"lean_module": "CelmaVerif.Props.C07", "obligation_modules": ["CelmaVerif.Props.C07b", "CelmaVerif.Props.C04s"],
             "kind": "functional", "trusted": TRUST,
             "assumptions": ["claimed for the modelled fragment only",
@@ -309,7 +320,7 @@ def make_case(rng, cid, what):
                 keyof = lambda a_: ("-" + a_.short) if a_.short else ("--" + a_.long)
                 tail = [keyof(args[i_]), "1", "2", keyof(args[j])]
                 if kind_ == "val":
-                    v_ = G.gen_value(rng, args[j])[0]
+                    v_, vd_ = G.gen_value(rng, args[j])
                     if not G.next_word_ok(v_):
                         v_ = None
                     else:
@@ -318,7 +329,7 @@ def make_case(rng, cid, what):
                     ok_line = bw + tail
                     bad_line = bw + tail + ["3"]
                     lbl = "free-value-after-" + kind_ + "-key"
-                    exp_ok = G.expected(args, base + [(i_, ("vec", [1, 2])), (j, None if kind_ == "flag" else (v_, G.gen_value and (int(v_) if args[j].kind == "int" else v_)))])
+                    exp_ok = G.expected(args, base + [(i_, ("vec", [1, 2])), (j, None if kind_ == "flag" else (v_, vd_))])
                     add("pa eval -- " + words_hex(ok_line), exp_ok, lbl + "-ok")
                     add("pa eval -- " + words_hex(bad_line), "throw", lbl)
                     for od in ("".join(order), "".join(reversed(order))):
@@ -1150,6 +1161,7 @@ def source_multi_case(rng, cid):
 
 BATCHES = {
     "C01": ["valid"],
+    "C06": ["valid"],
     "C07": ["sources"],
     "C03": ["valid", "valid", "groups"],
     "C02": ["broken", "broken", "valid"],
@@ -1658,3 +1670,39 @@ def generate(prop, tier, seed, scale=1):
         n = (60 if tier == "quick" else 4000) * scale
         cs = [broken_source_case(rng, "bsrc-%d" % k) for k in range(n)]
         yield "generated", [c for c in cs if c is not None]
+
+
+# ---- fourth seeded round (appended): three generator families, each in a module of its own ---------------------------
+# gen_pa_lineends.line_end_case   (C07): argument-file lines whose last word ends in a blank (backslash-escaped or
+#     quoted), lines with leading / trailing blanks, blank-only lines, '#' not in column 0, a trailing CR
+# gen_pa_valuelist.value_list_case (C06, also C01/C02): multi-value argument, then a sub-group argument (0..2 arguments
+#     of the sub handler), then free words, with and without a positional argument
+# gen_pa_formats.format_case       (C03, also C01/C02): case formatters on string (and int) arguments combined with
+#     mandatory / checks / cardinality / constraints
+
+_generate_before_round4 = generate
+
+
+def _round4(modname, fname):
+    try:
+        return getattr(__import__(modname), fname)
+    except ImportError:
+        return None
+
+
+def generate(prop, tier, seed, scale=1):
+    for label, cases in _generate_before_round4(prop, tier, seed, scale):
+        yield label, cases
+    fams = {"C07": [("gen_pa_lineends", "line_end_case", 80)],
+            "C06": [("gen_pa_valuelist", "value_list_case", 150)],
+            "C01": [("gen_pa_valuelist", "value_list_case", 40), ("gen_pa_formats", "format_case", 40)],
+            "C02": [("gen_pa_valuelist", "value_list_case", 40), ("gen_pa_formats", "format_case", 40)],
+            "C03": [("gen_pa_formats", "format_case", 80), ("gen_pa_valuelist", "value_list_case", 25)]}
+    for modname, fname, nq in fams.get(prop, []):
+        f = _round4(modname, fname)
+        if f is None:
+            continue
+        rng = random.Random("%s-%s-%s" % (prop, fname, seed))
+        n = (nq if tier == "quick" else nq * 60) * scale
+        cs = [f(rng, "%s-%d" % (fname.replace("_case", ""), k)) for k in range(n)]
+        yield "generated", [c for c in cs if c is not None and len(c.lines) > 2]
